@@ -716,13 +716,14 @@ func c14History(raw json.RawMessage) any {
 				}
 				if orig, ok := recv.Services[vis.names[j]]; ok {
 					if d := diffPath(eraseIDs(e.enc(reflect.ValueOf(&orig))), eraseIDs(e.enc(reflect.ValueOf(s))), ""); d != "" {
-						add("visitor-frame:"+op.Op+":"+d, fmt.Sprintf("step %d: the visitor's copy of %s differs from the service at %s", i, vis.names[j], d))
+						add("visitor-frame:"+op.Op+":"+strings.Fields(d)[0], fmt.Sprintf("step %d: the visitor's copy of %s differs from the service at %s", i, vis.names[j], d))
 					}
 				}
 				mutateAll(reflect.ValueOf(s), 0)
 			}
 			if d := diffPath(snaps[len(snaps)-1], e.enc(reflect.ValueOf(recv)), ""); d != "" {
 				add("mutation-leak:"+op.Op+":"+topField(d), fmt.Sprintf("step %d: mutating the visitor's services changed the project at %s", i, d))
+				snaps[len(snaps)-1] = e.enc(reflect.ValueOf(recv))
 			}
 			continue
 		}
@@ -778,7 +779,22 @@ func c14History(raw json.RawMessage) any {
 			}
 		}
 	}
-	sort.Slice(out.Violations, func(i, j int) bool { return out.Violations[i].Key < out.Violations[j].Key })
+	// the most causal kind first (the judge reports the first key): mutation of the receiver, shared memory, leaks, lost fields
+	rank := func(k string) int {
+		for i, pre := range []string{"receiver-mutated:", "alias:", "visitor-alias:", "mutation-leak:", "visitor-frame:", "frame:"} {
+			if strings.HasPrefix(k, pre) {
+				return i
+			}
+		}
+		return 9
+	}
+	sort.SliceStable(out.Violations, func(i, j int) bool {
+		ri, rj := rank(out.Violations[i].Key), rank(out.Violations[j].Key)
+		if ri != rj {
+			return ri < rj
+		}
+		return out.Violations[i].Key < out.Violations[j].Key
+	})
 	return out
 }
 
@@ -912,6 +928,15 @@ func c14CopyJudge(args, real, drv json.RawMessage) *core.Verdict {
 	}
 	if !core.CanonEqual(r.Src, r.SrcAgain) {
 		return core.Fail("receiver-mutated:Copy", "deepCopy changed its source")
+	}
+	if core.CanonEqual(r.Dst, d.Dst) {
+		// real = model: what the spec says about the model's copy holds for the real one
+		if !d.Isolated {
+			return core.Fail("copy:shares-memory", "the deep copy shares memory with its source")
+		}
+		if !d.Equal {
+			return core.Fail("copy:not-deep-equal", "the deep copy is not deeply equal to its source (a field is not copied)")
+		}
 	}
 	if !core.CanonEqual(r.Dst, d.Dst) {
 		// real ≠ model; when the model's copy is the deep-equal isolated one, the real copy is not: a failing input
